@@ -150,9 +150,12 @@ asn_enc_rval_t
 NativeInteger_encode_der(const asn_TYPE_descriptor_t *sd, const void *ptr,
                          int tag_mode, ber_tlv_tag_t tag,
                          asn_app_consume_bytes_f *cb, void *app_key) {
+    const asn_INTEGER_specifics_t *specs =
+        (const asn_INTEGER_specifics_t *)sd->specifics;
     unsigned long native = *(const unsigned long *)ptr; /* Disable sign ext. */
     asn_enc_rval_t erval;
 	INTEGER_t tmp;
+	uint8_t ubuf[1 + sizeof(native)];
 
 #ifdef	WORDS_BIGENDIAN		/* Opportunistic optimization */
 
@@ -170,7 +173,18 @@ NativeInteger_encode_der(const asn_TYPE_descriptor_t *sd, const void *ptr,
 	tmp.buf = buf;
 	tmp.size = sizeof(buf);
 #endif	/* WORDS_BIGENDIAN */
-	
+
+	if(specs && specs->field_unsigned && (tmp.buf[0] & 0x80)) {
+		/*
+		 * The unsigned value has its most significant bit set:
+		 * a leading zero octet keeps the INTEGER positive.
+		 */
+		ubuf[0] = 0;
+		memcpy(ubuf + 1, tmp.buf, tmp.size);
+		tmp.buf = ubuf;
+		tmp.size = sizeof(ubuf);
+	}
+
 	/* Encode fake INTEGER */
 	erval = INTEGER_encode_der(sd, &tmp, tag_mode, tag, cb, app_key);
     if(erval.structure_ptr == &tmp) {
